@@ -10,8 +10,11 @@ from gen import cigars as G
 
 ID = "C16"
 PROPS = ["IsoVerif/Props/C16.lean", "IsoVerif/Props/C16PolyA.lean", "IsoVerif/Props/C16Record.lean",
-         "IsoVerif/Props/C16Finder.lean"]
-TARGETS = ["IsoVerif.Props.C16", "IsoVerif.Props.C16PolyA", "IsoVerif.Props.C16Record", "IsoVerif.Props.C16Finder"]
+         "IsoVerif/Props/C16Finder.lean", "IsoVerif/Props/C16MoveRef.lean", "IsoVerif/Props/C16FinderSpec.lean",
+         "IsoVerif/Props/C16TailRecord.lean", "IsoVerif/Props/C16Concat.lean"]
+TARGETS = ["IsoVerif.Props.C16", "IsoVerif.Props.C16PolyA", "IsoVerif.Props.C16Record", "IsoVerif.Props.C16Finder",
+           "IsoVerif.Props.C16MoveRef", "IsoVerif.Props.C16FinderSpec", "IsoVerif.Props.C16TailRecord",
+           "IsoVerif.Props.C16Concat"]
 GEN_DEPS = ["Enums", "CigarClasses", "Prims"]
 LEVEL = "proof"
 RULE = ("exhaustive CIGARs (all 9 operation kinds: <=3 ops x lengths {1,2,3}, 4 ops x {1,2}; 5 ops over 7 kinds and 6 ops "
@@ -20,18 +23,26 @@ RULE = ("exhaustive CIGARs (all 9 operation kinds: <=3 ops x lengths {1,2,3}, 4 
         "reference_start -1) against get_read_blocks, AlignmentInfo on a fake alignment object and on real "
         "pysam.AlignedSegment (get_blocks, reference_end); exhaustive sorted exon lists (<=3 exons over 1..8) x all "
         "polyA/polyT positions x max_fake in {0,2,40} + random exon lists for count/shift/correct_read_info/"
-        "add_polya_info; a case is non-trivial when the model returns a non-error value with at least one block "
+        "add_polya_info; move_ref_coord_alogn_alignment and its base-by-base specification on exhaustive short cores "
+        "(1 op x 9 kinds x {1,2,3}, 2 ops x 9 kinds x {1,2}, every 3-op kind sequence over 9 kinds with random lengths) x "
+        "49 clip variants (leading/trailing in {none, S, H, H S, S H, S S, H H}) x shifts -5..5; find_polya_tail / "
+        "find_polyt_head with random from/to/check_entire on random reads with A/T-rich ends, indels at the alignment "
+        "ends, P operations and H/S clip combinations; the whole record chain (modelled finder + trimming) against "
+        "AlignmentInfo.add_polya_info with the real PolyAFinder; a case is non-trivial when the model returns a non-error value with at least one block "
         "(CIGAR ops) / a changed exon list or a non-zero count (polyA ops) and model == implementation; "
         "distinct by (op, input)")
 TRUSTED = ["Gen/CigarClasses.lean (match / ins-del-match operation sets, polyA window constants) is extracted from "
            "src/common.py, src/polya_finder.py, isoquant.py on every run",
            "pysam: cigartuples / reference_start / get_blocks / reference_end per the SAM specification",
-           "PolyAFinder (find_polya_tail / find_polyt_head / move_ref_coord_alogn_alignment) is not modelled: the "
-           "theorems quantify over *all* position quadruples, the finder's output on synthetic reads is fed to both "
-           "model and implementation"]
+           "Biopython reverse_complement maps exactly T/t to A/a (hypothesis `hrc` of polyt_polya_mirror_law; the model "
+           "of find_polyt_head looks for T in the reversed region)"]
 ASSUMPTIONS = ["CPython int semantics = Lean Int", "CIGAR operation lengths are >= 0 (BAM stores them unsigned) and "
                "reference_start >= 0 for read_blocks_spec (the truthiness corner reference_start = -1 is a witness)",
-               "the three current_*_start locals of get_read_blocks are assigned together (one Option triple in the model)"]
+               "the three current_*_start locals of get_read_blocks are assigned together (one Option triple in the model)",
+               "move_ref_coord_spec / find_polya_tail_spec / find_polyt_head_spec: CIGAR operation lengths >= 0 (NonNeg); "
+               "record_tail_on_retained_exon: lengths >= 1 and reference_start >= 0 (SAM-valid record)",
+               "min_polya_fraction is compared as the exact rational num/den; the harness uses dyadic fractions "
+               "(1/4, 1/2, 3/4, 1) for which the float comparison of the code is exact"]
 
 MAX_FAKE = [0, 2, 40]
 
@@ -133,6 +144,9 @@ def impl_call(op, kw):
             return vlib.canon(C.correct_bam_coords(tl(kw["l"])))
         if op == "concat_gapless_blocks":
             return vlib.canon(C.concat_gapless_blocks(tl(kw["blocks"]), tl(kw["cigar"])))
+        if op == "concat_gapless_spec":      # the specification against the code on pysam's own blocks
+            a = make_segment(kw["s"], kw["cigar"])
+            return vlib.canon(C.concat_gapless_blocks(a.get_blocks(), a.cigartuples))
         if op == "count_polya_exons":
             return fixer(kw["mf"]).count_polya_exons(tl(kw["exons"]), kw["pos"])
         if op == "count_polyt_exons":
@@ -151,8 +165,27 @@ def impl_call(op, kw):
             f = PF.PolyAFinder(kw["w"], 0.75)
             f.polyA_count = kw["c"]
             return f.find_polya(kw["seq"])
-        if op == "move_ref_coord":
+        if op in ("move_ref_coord", "move_ref_coord_spec"):   # the code and, separately, its specification
             return PF.move_ref_coord_alogn_alignment(SimpleNamespace(cigartuples=tl(kw["cigar"])), kw["shift"])
+        if op in ("find_polya_tail", "find_polyt_head"):
+            f = PF.PolyAFinder(kw["w"], kw["num"] / kw["den"])
+            a = make_segment(kw["s"], kw["cigar"], kw["seq"])
+            fn = f.find_polya_tail if op == "find_polya_tail" else f.find_polyt_head
+            return fn(a, kw["from"], kw["to"], kw["chk"])
+        if op == "record_polya":
+            a = make_segment(kw["s"], kw["cigar"], kw["seq"])
+            ai = AI.AlignmentInfo(a)
+            if not ai.read_exons:
+                return {"no_exons": True}
+            finder = PF.PolyAFinder()
+            pi = finder.detect_polya(a)
+            found = [pi.external_polya_pos, pi.external_polyt_pos, pi.internal_polya_pos, pi.internal_polyt_pos]
+            try:
+                ai.add_polya_info(finder, fixer(kw["mf"]))
+                after = ainfo_json(ai)
+            except (IndexError, AssertionError, AttributeError) as ex:
+                after = {"error": "error"}
+            return {"found": found, "after": after}
         if op == "detect_polya":
             f = PF.PolyAFinder(kw["w"], kw["num"] / kw["den"])
             pi = f.detect_polya(make_segment(kw["s"], kw["cigar"], kw["seq"]))
@@ -299,6 +332,8 @@ def gen_cases(ctx):
         if i % step == 0 and s < 2 ** 29 - 10 ** 7 and len(c) < 500:
             yield ("aligned_blocks", {"s": s, "cigar": c})
             yield ("alignment_info_pysam", {"s": s, "cigar": c})
+            if c:
+                yield ("concat_gapless_spec", {"s": s, "cigar": c})
         # concat_gapless_blocks on pysam-style blocks of the same CIGAR (+ truncated block lists)
         if i % 17 == 0:
             blocks = sam_aligned_blocks(s, c)
@@ -385,6 +420,105 @@ def finder_unit_cases(ctx):
             yield ("detect_polya_default", {"s": s, "cigar": cig, "seq": seq})
 
 
+def move_ref_cases(ctx):
+    """exhaustive short cores x clip variants x shifts for move_ref_coord_alogn_alignment and its specification"""
+    rng = ctx.rng
+    quick = ctx.tier == "quick"
+    cores = []
+    cores += list(G.exhaustive(G.ALL_KINDS, 1, (1, 2, 3)))
+    cores += list(G.exhaustive(G.ALL_KINDS, 2, (1, 2)))
+    cores += list(G.exhaustive_kinds_random_lens(rng, G.ALL_KINDS, 3, (1, 2, 3)))
+    if not quick:
+        cores += list(G.exhaustive_kinds_random_lens(rng, [G.M, G.I, G.D, G.N, G.S, G.H, G.P], 4, (1, 2, 3)))
+    shifts = list(range(-5, 6))
+    n = 0
+    for core in cores:
+        variants = list(G.clip_variants(core))
+        if quick and len(core) >= 3:
+            variants = rng.sample(variants, 8)
+        for c in variants:
+            for sh in (rng.sample(shifts, 2) if quick else shifts):
+                n += 1
+                yield ("move_ref_coord", {"cigar": c, "shift": sh})
+                if n % 3 == 0 or not quick:
+                    yield ("move_ref_coord_spec", {"cigar": c, "shift": sh})
+    ctx.extra["move_ref_universe"] = {"cores": len(cores), "clip_variants": len(G.LEAD_CLIPS) ** 2,
+                                      "shifts": "2 of -5..5 per CIGAR; 3-op cores: 8 of the 49 clip variants" if quick
+                                      else "-5..5", "cases": n}
+    # the shapes of the seeded slip (trailing S H / leading H S) on long-read sized operations, long shifts
+    for _ in range(600 if quick else 6000):
+        c = G.sam_like_cigar(rng)
+        if rng.random() < 0.5:
+            while c and c[-1][0] in (G.S, G.H):
+                c.pop()
+            c += [[G.S, rng.randint(1, 40)], [G.H, rng.randint(1, 40)]]
+        if rng.random() < 0.3:
+            while c and c[0][0] in (G.S, G.H):
+                c.pop(0)
+            c = [[G.H, rng.randint(1, 40)], [G.S, rng.randint(1, 40)]] + c
+        sh = rng.choice([-1, -2, 1, 2, rng.randint(-150, 150)])
+        yield ("move_ref_coord", {"cigar": c, "shift": sh})
+        yield ("move_ref_coord_spec", {"cigar": c, "shift": sh})
+
+
+FRACTIONS = [(3, 4), (3, 4), (1, 2), (1, 4), (1, 1)]      # dyadic: the float comparison of the code is exact
+
+
+def tail_finder_cases(ctx):
+    """find_polya_tail / find_polyt_head with arbitrary arguments on random reads; the record chain"""
+    rng = ctx.rng
+    quick = ctx.tier == "quick"
+    # the corner of polya_beyond_reference_end_witness, on the real code
+    yield ("find_polya_tail", {"w": 2, "num": 1, "den": 2, "s": 100, "cigar": [[G.M, 4], [G.I, 3]], "seq": "CCCCCAA",
+                               "from": 8, "to": 2, "chk": True})
+    for i in range(2500 if quick else 25000):
+        seq, cig = G.finder_read(rng)
+        if not seq:
+            continue
+        if rng.random() < 0.05:
+            seq = seq.lower() if rng.random() < 0.5 else seq.replace("G", "N")
+        s = rng.choice([0, 1, 5, rng.randint(0, 10 ** 6)])
+        r = rng.random()
+        if r < 0.5:
+            w = 16
+            num, den = 3, 4
+            frm, to, chk = rng.choice([(2, 32, False), (64, 2, True)])
+        else:
+            w = rng.choice([1, 2, 3, 4, 8, 16])
+            num, den = rng.choice(FRACTIONS)
+            frm, to, chk = rng.randint(0, 70), rng.randint(0, 40), rng.random() < 0.5
+        kw = {"w": w, "num": num, "den": den, "s": s, "cigar": cig, "seq": seq, "from": frm, "to": to, "chk": chk}
+        yield ("find_polya_tail", kw)
+        yield ("find_polyt_head", dict(kw))
+        if i % 3 == 0:
+            yield ("record_polya", {"s": s, "cigar": cig, "seq": seq, "mf": rng.choice([20, 40])})
+    for i, (s, seq, cig) in enumerate(read_cases(ctx)):
+        if G.query_len(cig) != len(seq) or i % 4:
+            continue
+        yield ("record_polya", {"s": s, "cigar": cig, "seq": seq, "mf": rng.choice([20, 40])})
+
+
+def mirror_law_check(ctx):
+    """polyt_polya_mirror_law on the real code: clean tails (>= 20 soft-clipped A's after >= 4 non-A bases) —
+    find_polyt_head of the mirror image = max(1, L - 1 - find_polya_tail)"""
+    C, AI, PF, PV = _impl()
+    rng = ctx.rng
+    f = PF.PolyAFinder()
+    L = 10 ** 6
+    for _ in range(150 if ctx.tier == "quick" else 1500):
+        seq, cig = G.clean_tail_read(rng)
+        s = rng.randint(100, 5000)
+        a = make_segment(s, cig, seq)
+        m = make_segment(L - a.reference_end, cig[::-1], G.revcomp(seq))
+        pa, pt = f.find_polya_external(a), f.find_polyt_external(m)
+        ctx.evaluations += 1
+        ctx.count("op:mirror_law")
+        if pa == -1 or pt != max(1, L - 1 - pa):
+            ctx.disagree("mirror_law", {"s": s, "cigar": cig, "seq": seq, "L": L}, max(1, L - 1 - pa), pt)
+        else:
+            ctx.traces_validated += 1
+
+
 def nontrivial(op, kw, mo):
     if vlib.is_err(mo):
         return False
@@ -392,7 +526,7 @@ def nontrivial(op, kw, mo):
         return bool(mo["ref"])
     if op == "aligned_blocks":
         return bool(mo["blocks"])
-    if op in ("concat_gapless_blocks", "correct_bam_coords"):
+    if op in ("concat_gapless_blocks", "correct_bam_coords", "concat_gapless_spec"):
         return bool(mo)
     if op in ("count_polya_exons", "count_polyt_exons"):
         return mo != 0
@@ -404,8 +538,12 @@ def nontrivial(op, kw, mo):
         return bool(mo.get("changed"))
     if op == "find_polya":
         return mo != -1
-    if op == "move_ref_coord":
+    if op in ("move_ref_coord", "move_ref_coord_spec"):
         return mo > 0
+    if op in ("find_polya_tail", "find_polyt_head"):
+        return mo != -1
+    if op == "record_polya":
+        return "after" in mo and not vlib.is_err(mo["after"]) and bool(mo["after"].get("changed"))
     if op in ("detect_polya", "detect_polya_default"):
         return any(x != -1 for x in mo)
     return True
@@ -472,7 +610,9 @@ def correspondence(ctx):
     import itertools
     gen_selfcheck(ctx)
     state = {"pysam_ok": 0, "first": None}
-    stream = itertools.chain(gen_cases(ctx), finder_cases(ctx), finder_unit_cases(ctx))
+    mirror_law_check(ctx)
+    stream = itertools.chain(gen_cases(ctx), finder_cases(ctx), finder_unit_cases(ctx), move_ref_cases(ctx),
+                             tail_finder_cases(ctx))
     while True:
         chunk = list(itertools.islice(stream, CHUNK))
         if not chunk:
@@ -661,7 +801,44 @@ def oracle_trim_read(s, seq, cigar, mf):
         ai.add_polya_info(finder, fixer(mf))
     except Exception as ex:
         return "trim_exception", "%s: %s (positions %s)" % (type(ex).__name__, ex, info)
-    return check_trim(before, rb, cb, info, ai)
+    r = check_trim(before, rb, cb, info, ai)
+    if r:
+        return r
+    # the recorded tail position belongs to this alignment: a found position lies next to the aligned reference
+    # span, at most the soft clip (+1) away (reading rule, docs/C16.md §3)
+    clip5, clip3 = soft_clips(cigar)
+    for idx, name in ((0, "external_polya"), (2, "internal_polya")):
+        x = info[idx]
+        if x != -1 and not (a.reference_start <= x <= a.reference_end + clip3 + 1):
+            return "tail_position_off_alignment", "%s=%s, alignment %s-%s, 3' clip %s" % (
+                name, x, a.reference_start, a.reference_end, clip3)
+    for idx, name in ((1, "external_polyt"), (3, "internal_polyt")):
+        x = info[idx]
+        if x != -1 and not (max(1, a.reference_start - clip5 - 1) <= x <= max(1, a.reference_end)):
+            return "tail_position_off_alignment", "%s=%s, alignment %s-%s, 5' clip %s" % (
+                name, x, a.reference_start, a.reference_end, clip5)
+    # hard clipping changes nothing (SAM): the same record without its H operations gives the same exons, read
+    # blocks and tail positions
+    if any(k == G.H for k, _ in cigar) and all(k != G.H for k, _ in cigar[1:-1]):
+        bare = [[k, l] for k, l in cigar if k != G.H]
+        try:
+            ai2 = AI.AlignmentInfo(make_segment(s, bare, seq))
+            ai2.add_polya_info(finder, fixer(mf))
+        except Exception as ex:
+            return "hard_clip_changes_result", "without H: %s: %s" % (type(ex).__name__, ex)
+        got, exp = ainfo_json(ai), ainfo_json(ai2)
+        for key in ("exons", "read_blocks", "info"):
+            if got[key] != exp[key]:
+                return "hard_clip_changes_result", "%s with H: %s, without: %s" % (key, got[key], exp[key])
+    return None
+
+
+def soft_clips(cigar):
+    """(5' soft clip, 3' soft clip) of a SAM-valid CIGAR: the S next to the (optional) outermost H"""
+    c = [x for x in cigar if x[0] != G.H]
+    c5 = c[0][1] if c and c[0][0] == G.S else 0
+    c3 = c[-1][1] if len(c) > 1 and c[-1][0] == G.S else 0
+    return c5, c3
 
 
 def oracle_pipeline(ctx, reads):
@@ -739,6 +916,12 @@ def oracle(ctx, disagreements, broken):
                     r = oracle_trim_unit(ex, info, mf)
                     if r:
                         ctx.fail(r[0], {"check": "trim_unit", "exons": ex, "info": info, "mf": mf}, r[1])
+        elif op in ("record_polya", "find_polya_tail", "find_polyt_head") and kw.get("seq") \
+                and not any(k == G.P for k, _ in kw["cigar"]):
+            r = oracle_trim_read(kw["s"], kw["seq"], kw["cigar"], kw.get("mf", 40))
+            if r:
+                ctx.fail(r[0], {"check": "trim_read", "s": kw["s"], "seq": kw["seq"], "cigar": kw["cigar"],
+                                "mf": kw.get("mf", 40)}, r[1])
         elif op == "alignment_polya" and kw.get("seq"):
             r = oracle_trim_read(kw["s"], kw["seq"], kw["cigar"], kw["mf"])
             if r:
@@ -765,7 +948,14 @@ def oracle(ctx, disagreements, broken):
             ctx.fail(r[0], {"check": "trim_unit", "exons": ex, "info": info, "mf": mf}, r[1])
             if len(ctx.failures) > 40:
                 break
-    for s, seq, c in read_cases(ctx):
+    def more_reads():
+        yield from read_cases(ctx)
+        for _ in range(800 if quick else 8000):      # clip combinations (H S … S H), indels at the alignment ends
+            seq, c = G.finder_read(ctx.rng)
+            if any(k == G.P for k, _ in c):
+                continue                             # the finder raises TypeError on P (modelled; not in the domain)
+            yield (ctx.rng.randint(0, 10 ** 6), seq, c)
+    for s, seq, c in more_reads():
         n += 1
         r = oracle_trim_read(s, seq, c, 40)
         if r:
